@@ -131,6 +131,14 @@ class Sym:
     def __neg__(self):
         return Sym(-self.e, self.kind)
 
+    def __pow__(self, k):
+        if self.kind not in ("int", "real") or not isinstance(k, int) or isinstance(k, bool) or not 0 <= k <= 8:
+            return NotImplemented
+        e = z3.IntVal(1) if self.kind == "int" else z3.RealVal(1)
+        for _ in range(k):
+            e = e * self.e
+        return Sym(z3.simplify(e), self.kind)
+
 
 class Obj:
     """Instance of an interpreted class."""
